@@ -1951,8 +1951,12 @@ class PyCdlib:
         num_sectors = utils.ceiling_div(data_len, self.logical_block_size)
         csum = 0
         curr_sector = 0
+        left = data_len
         while curr_sector < num_sectors:
-            block = data_fp.read(self.logical_block_size)
+            # Only the bytes of the file itself count; the file object it
+            # was added from may hold more than that.
+            block = data_fp.read(min(self.logical_block_size, left))
+            left -= len(block)
             block = block.ljust(2048, b'\x00')
             i = 0
             if curr_sector == 0:
